@@ -25,7 +25,7 @@ pub struct DetTrace {
     pub env_seed_salt: u64,
 }
 
-pub const FORMATS: &[Format] = &[Format::BinLz4, Format::BinNone, Format::BinZstd, Format::Xml, Format::XmlUnknown];
+pub const FORMATS: &[Format] = &[Format::BinLz4, Format::BinNone, Format::BinZstd, Format::Xml, Format::XmlUnknown, Format::XmlNoReflection];
 
 const ENV_NAMES: &[&str] = &[
     "canonical",
@@ -233,11 +233,15 @@ fn save(format: Format, dom: &WeakDom, roots: &[Ref]) -> Saved {
                 };
                 rbx_binary::Serializer::new().compression_type(c).serialize(&mut buf, src_dom, roots).map_err(|e| e.to_string())
             }
-            Format::XmlUnknown => rbx_xml::to_writer(
+            Format::XmlUnknown | Format::XmlNoReflection => rbx_xml::to_writer(
                 &mut buf,
                 src_dom,
                 roots,
-                rbx_xml::EncodeOptions::new().property_behavior(rbx_xml::EncodePropertyBehavior::WriteUnknown),
+                rbx_xml::EncodeOptions::new().property_behavior(if format == Format::XmlUnknown {
+                    rbx_xml::EncodePropertyBehavior::WriteUnknown
+                } else {
+                    rbx_xml::EncodePropertyBehavior::NoReflection
+                }),
             )
             .map_err(|e| e.to_string()),
             _ => rbx_xml::to_writer_default(&mut buf, src_dom, roots).map_err(|e| e.to_string()),
@@ -311,9 +315,13 @@ fn serializer_history(format: Format, env: u8, dom: &WeakDom, seed: u64) {
 fn load(format: Format, bytes: &[u8]) -> Option<WeakDom> {
     let res = crate::panic::catch(|| match format {
         Format::BinLz4 | Format::BinNone | Format::BinZstd => rbx_binary::from_reader(bytes).ok(),
-        Format::XmlUnknown => rbx_xml::from_reader(
+        Format::XmlUnknown | Format::XmlNoReflection => rbx_xml::from_reader(
             bytes,
-            rbx_xml::DecodeOptions::new().property_behavior(rbx_xml::DecodePropertyBehavior::ReadUnknown),
+            rbx_xml::DecodeOptions::new().property_behavior(if format == Format::XmlUnknown {
+                rbx_xml::DecodePropertyBehavior::ReadUnknown
+            } else {
+                rbx_xml::DecodePropertyBehavior::NoReflection
+            }),
         )
         .ok(),
         _ => rbx_xml::from_reader_default(bytes).ok(),
